@@ -132,6 +132,23 @@ class Ctx:
             return out
         return go_build(race=race, pkgs=pkgs)
 
+    # ------------------------------------------------------------------ Apalache (inductive invariants of small models)
+    def apalache(self, module, init, inv, length, timeout=600):
+        """apalache-mc check --init=<init> --inv=<inv> --length=<length> on spec/<module>.tla in a scratch directory.
+        Returns "ok", "error" (a counter-example exists) or "unavailable: <why>" (tool missing, timeout, crash)."""
+        d = self.tmp("apalache_%s_%s_%d" % (module, init, length))
+        shutil.copy(os.path.join(SPEC, module + ".tla"), d)
+        try:
+            r = subprocess.run(["timeout", str(timeout), "apalache-mc", "check", "--init=" + init, "--inv=" + inv, "--length=%d" % length,
+                                "--out-dir=" + os.path.join(d, "out"), module + ".tla"], cwd=d, stdout=subprocess.PIPE, stderr=subprocess.STDOUT, text=True)
+        except OSError as e:
+            return "unavailable: %s" % e
+        if "The outcome is: NoError" in r.stdout:
+            return "ok"
+        if "The outcome is: Error" in r.stdout:
+            return "error"
+        return "unavailable: rc=%s %s" % (r.returncode, r.stdout[-300:].replace("\n", " "))
+
     # ------------------------------------------------------------------ TLC
     def tlc_prepare(self, module, mc_body, cfg, name=None, extends=None):
         """Create a scratch dir with all specs, MC_<name>.tla (EXTENDS module) and its cfg."""
